@@ -29,8 +29,7 @@ TECHNIQUE = "Coq proof over the parent map (parents precede children for every c
 LEVEL_TEXT = ("For every config and option set the constructor's parent map is well-founded (construct_parent_before_child: a parent always precedes its child — including banner/macro "
               "re-parenting), child lists are exactly the ascending lines pointing to that parent (each non-root in exactly one list, once), all_children/all_parents are the "
               "descendant/ancestor sets in line order, and lineage/geneology/family_endpoint/siblings/flags are the stated compositions. Tied to the code by exhaustive + random dumps.")
-LEVEL_NOTE = ("Trusted: Coq kernel + vm_compute; hand models tied by correspondence; banner-regex oracle. all_children_nodup is stated as partial (membership and order proved; "
-              "duplicate-freeness is covered by the per-case check of the implementation's dump). Brace-syntax trees are checked through the same link model on the converted text.")
+LEVEL_NOTE = ("Trusted: Coq kernel + vm_compute; hand models tied by correspondence; banner-regex oracle. all_children is proved duplicate-free and strictly ascending (all_children_nodup, all_children_strictly_ascending). Brace-syntax trees are checked through the same link model on the converted text.")
 
 SYM = ["a", " b", "", "  c", "!c", "banner motd ^", "^", " ^", "macro name m", "@", " x ^ y", "  ", "banner login #", "#"]
 SYNS = ["ios", "nxos", "iosxr", "asa"]
